@@ -100,47 +100,81 @@ theorem arg_item (sp : List Char × Option (List Char)) (h1 : clean sp.1) (h2 : 
   | some p =>
     exact ⟨parseSampleArg_named k p hk.2.1, parseSampleLine_named k p hk.2.2.1⟩
 
-theorem samples_arg_eq_file (L : List (List Char × Option (List Char))) (hne : L ≠ [])
-    (h1 : ∀ sp ∈ L, clean sp.1 ∧ sp.1 ≠ []) (h2 : ∀ sp ∈ L, ∀ p, sp.2 = some p → clean p) :
-    parseSamplesArg (List.intercalate [','] (L.map renderArgItem)) = L.map asEntry ∧
-    parseSamplesFile (List.intercalate ['\n'] (L.map renderFileItem) ++ ['\n']) = L.map asEntry ∧
-    parseSamplesFile (List.intercalate ['\n'] (L.map renderFileItem)) = L.map asEntry := by
-  have hA : (L.map renderArgItem).map parseSampleArg = L.map asEntry := by
-    rw [List.map_map]
-    exact List.map_congr_left (fun sp hsp => (arg_item sp (h1 sp hsp).1 (h2 sp hsp)).1)
-  have hF : (L.map renderFileItem).map parseSampleLine = L.map asEntry := by
-    rw [List.map_map]
-    exact List.map_congr_left (fun sp hsp => (arg_item sp (h1 sp hsp).1 (h2 sp hsp)).2)
-  have hneA : L.map renderArgItem ≠ [] := by simpa using hne
-  have hneF : L.map renderFileItem ≠ [] := by simpa using hne
-  have hcomma : ∀ t ∈ L.map renderArgItem, ',' ∉ t := by
-    intro t ht
+/-- what the hypotheses of the two theorems below say about the rendered items (short glue) -/
+private theorem items_facts (L : List (List Char × Option (List Char)))
+    (h1 : ∀ sp ∈ L, clean sp.1 ∧ sp.1 ≠ []) (h2 : ∀ sp ∈ L, ∀ p, sp.2 = some p → clean p)
+    (h3 : ∀ sp ∈ L, (renderFileItem sp).getLast? ≠ some '\r') :
+    (∀ sp ∈ L, (parseSampleArg ∘ renderArgItem) sp = asEntry sp) ∧
+    (∀ sp ∈ L, (parseSampleLine ∘ renderFileItem) sp = asEntry sp) ∧
+    (∀ t ∈ L.map renderFileItem, '\n' ∉ t) ∧ (∀ t ∈ L.map renderFileItem, t ≠ []) ∧
+    (∀ t ∈ L.map renderFileItem, t.getLast? ≠ some '\r') := by
+  refine ⟨fun sp hsp => (arg_item sp (h1 sp hsp).1 (h2 sp hsp)).1, fun sp hsp => (arg_item sp (h1 sp hsp).1 (h2 sp hsp)).2,
+    ?_, ?_, ?_⟩
+  · intro t ht
     obtain ⟨⟨k, o⟩, hsp, rfl⟩ := List.mem_map.1 ht
-    have hk : clean k := (h1 _ hsp).1
-    cases o with
-    | none => exact hk.1
-    | some p =>
-      have hp : clean p := h2 _ hsp p rfl
-      simp only [renderArgItem, List.mem_append, List.mem_cons, not_or]
-      exact ⟨hk.1, by decide, hp.1⟩
-  have hnl : ∀ t ∈ L.map renderFileItem, '\n' ∉ t := by
-    intro t ht
-    obtain ⟨⟨k, o⟩, hsp, rfl⟩ := List.mem_map.1 ht
-    have hk : clean k := (h1 _ hsp).1
+    have hk := (h1 _ hsp).1
     cases o with
     | none => exact hk.2.2.2
     | some p =>
-      have hp : clean p := h2 _ hsp p rfl
-      simp only [renderFileItem, List.mem_append, List.mem_cons, not_or]
-      exact ⟨hk.2.2.2, by decide, hp.2.2.2⟩
-  have hnonempty : ∀ t ∈ L.map renderFileItem, t ≠ [] := by
-    intro t ht
+      have hp := h2 _ hsp p rfl
+      have hk' : '\n' ∉ k := hk.2.2.2
+      have hp' : '\n' ∉ p := hp.2.2.2
+      simp [renderFileItem, hk', hp']
+  · intro t ht
     obtain ⟨⟨k, o⟩, hsp, rfl⟩ := List.mem_map.1 ht
     have hk : k ≠ [] := (h1 _ hsp).2
     cases o <;> simp [renderFileItem, hk]
-  exact ⟨by rw [parseSamplesArg_intercalate _ hneA hcomma, hA],
-    by rw [parseSamplesFile_intercalate_nl _ hneF hnl, hF],
-    by rw [parseSamplesFile_intercalate _ hneF hnl hnonempty, hF]⟩
+  · intro t ht
+    obtain ⟨sp, hsp, rfl⟩ := List.mem_map.1 ht
+    exact h3 sp hsp
+
+private theorem items_no_comma (L : List (List Char × Option (List Char)))
+    (h1 : ∀ sp ∈ L, clean sp.1 ∧ sp.1 ≠ []) (h2 : ∀ sp ∈ L, ∀ p, sp.2 = some p → clean p) :
+    ∀ t ∈ L.map renderArgItem, ',' ∉ t := by
+  intro t ht
+  obtain ⟨⟨k, o⟩, hsp, rfl⟩ := List.mem_map.1 ht
+  have hk := (h1 _ hsp).1
+  cases o with
+  | none => exact hk.1
+  | some p =>
+    have hp := h2 _ hsp p rfl
+    have hk' : ',' ∉ k := hk.1
+    have hp' : ',' ∉ p := hp.1
+    simp [renderArgItem, hk', hp']
+
+theorem samples_arg_eq_file (L : List (List Char × Option (List Char))) (hne : L ≠ [])
+    (h1 : ∀ sp ∈ L, clean sp.1 ∧ sp.1 ≠ []) (h2 : ∀ sp ∈ L, ∀ p, sp.2 = some p → clean p)
+    (h3 : ∀ sp ∈ L, (renderFileItem sp).getLast? ≠ some '\r') :
+    parseSamplesArg (List.intercalate [','] (L.map renderArgItem)) = L.map asEntry ∧
+    parseSamplesFile (List.intercalate ['\n'] (L.map renderFileItem) ++ ['\n']) = L.map asEntry ∧
+    parseSamplesFile (List.intercalate ['\n'] (L.map renderFileItem)) = L.map asEntry := by
+  obtain ⟨ha, hf, hnl, hne', hcr⟩ := items_facts L h1 h2 h3
+  have hLne : L.map renderFileItem ≠ [] := by simpa using hne
+  refine ⟨?_, ?_, ?_⟩
+  · rw [parseSamplesArg_intercalate _ (by simpa using hne) (items_no_comma L h1 h2), List.map_map]
+    exact List.map_congr_left ha
+  · rw [parseSamplesFile_intercalate_nl _ hLne hnl hcr, List.map_map]
+    exact List.map_congr_left hf
+  · rw [parseSamplesFile_intercalate _ hLne hnl hne' (fun t ht => hcr t (List.dropLast_subset _ ht)), List.map_map]
+    exact List.map_congr_left hf
+
+/-- The same file with Windows line endings (`\r\n` after every line, the last one included or not) gives the same map:
+    `str::lines` drops the carriage return together with the line feed. -/
+theorem samples_file_crlf (L : List (List Char × Option (List Char))) (hne : L ≠ [])
+    (h1 : ∀ sp ∈ L, clean sp.1 ∧ sp.1 ≠ []) (h2 : ∀ sp ∈ L, ∀ p, sp.2 = some p → clean p)
+    (h3 : ∀ sp ∈ L, (renderFileItem sp).getLast? ≠ some '\r') :
+    parseSamplesFile (List.intercalate ['\r', '\n'] (L.map renderFileItem) ++ ['\r', '\n']) = L.map asEntry ∧
+    parseSamplesFile (List.intercalate ['\r', '\n'] (L.map renderFileItem)) = L.map asEntry := by
+  obtain ⟨_, hf, hnl, hne', _⟩ := items_facts L h1 h2 h3
+  have hLne : L.map renderFileItem ≠ [] := by simpa using hne
+  refine ⟨?_, ?_⟩
+  · rw [parseSamplesFile_intercalate_crnl _ hLne hnl, List.map_map]
+    exact List.map_congr_left hf
+  · rw [parseSamplesFile_intercalate_cr _ hLne hnl hne', List.map_map]
+    exact List.map_congr_left hf
+
+example : parseSamplesFile "a\tX\r\nb\r\nc\tY".toList = [("a", .named "X"), ("b", .unnamed), ("c", .named "Y")] ∧
+    parseSamplesFile "a\tX\r\n".toList = [("a", .named "X")] ∧ parseSamplesFile "a\tX\r".toList = [("a", .named "X\r")] := by decide
 
 /-- unknown_or_empty_is_error. -/
 theorem empty_list_is_error (project : Option (List Nat)) (cols : List String) :
